@@ -4,3 +4,5 @@ import Xrfmv.Props.C07
 #print axioms Xrfmv.Props.C07.moved_bound
 #print axioms Xrfmv.Props.C07.single_leaf_moves_nothing
 #print axioms Xrfmv.Props.C07.indices_follow_rows
+#print axioms Xrfmv.Props.C07.construction_ok
+#print axioms Xrfmv.Props.C07.every_sample_exactly_once_unconditional
